@@ -12,6 +12,153 @@ def _c10_case(c):
     return {"raw": c}
 
 
+# ---- thorough tier: re-evaluation of a sample of kill cases inside Coq (vm_compute), independent of
+# the extraction and of the OCaml driver (whose history/crash expansion is restated in Gallina here)
+_VM_PRELUDE = """From Oras Require Import Base.Prelude Generated.GC10 Model.OciCrash.
+Definition vm_good (d : N) (n : nat) : list N := map (fun i => d * 4096 + N.of_nat i) (seq 0 n).
+Definition vm_bad (d : N) (n : nat) : list N :=
+  match n with O => [] | S m => vm_good d m ++ [d * 4096 + 4095] end.
+Definition vm_H (tbl : list (N * nat)) (c : list N) : N :=
+  match find (fun e => list_eqb N.eqb c (vm_good (fst e) (snd e))) tbl with Some e => fst e | None => 0 end.
+Definition vm_id (_ : nat) (l : list entry) : list entry := l.
+Section VM.
+Variable H : list N -> N.
+Notation RUNOP := (run_op H vm_id src_inplace src_unlink_first).
+Notation STEPS := (op_steps H vm_id src_inplace src_unlink_first).
+Notation HOP := (run_hop H vm_id src_inplace src_unlink_first).
+Fixpoint vm_crash_call (s : st) (ops : list op) (j : nat) : st :=
+  match ops with
+  | [] => HOP s (Crashed SaveIndex 0)
+  | o :: r => let n := length (STEPS s o) in
+              if Nat.leb j n then HOP s (Crashed o j) else vm_crash_call (RUNOP s o) r (j - n)
+  end.
+Definition vm_hist (hist : list (list op * option nat)) : st :=
+  fold_left (fun s c => match snd c with
+                        | None => run H vm_id src_inplace src_unlink_first (fst c) s
+                        | Some j => vm_crash_call s (fst c) j
+                        end) hist init.
+Definition vm_view (hist : list (list op * option nat)) (fin : list op) (j : nat) (ids : list N) (expect : list entry) :=
+  let s := vm_hist hist in
+  let fsk := crash_seq H vm_id src_inplace src_unlink_first s fin j in
+  (layout_okb fsk,
+   map (fun d => match files fsk (FBlob d) with
+                 | Some f => Some (length (fcontent f), fro f) | None => None end) ids,
+   match read_index fsk with
+   | Some l => Some (length l, forallb (fun e => existsb (entry_eqb e) l) expect)
+   | None => None
+   end).
+End VM.
+"""
+
+
+def _c10_vm_call(toks, blobs):
+    n = {b[0]: b[1] for b in blobs}
+    man = {b[0]: b[2] for b in blobs}
+    k = toks[0]
+    if k == "push":
+        d = int(toks[1]); return ["Push %d (vm_good %d %d) %s" % (d, d, n[d], "true" if man[d] else "false")]
+    if k == "pushbad":
+        d = int(toks[1]); return ["Push %d (vm_bad %d %d) %s" % (d, d, n[d], "true" if man[d] else "false")]
+    if k == "tag":
+        return ["Tag %s %s" % (toks[1], toks[2])]
+    if k == "untag":
+        return ["Untag %s" % toks[1]]
+    if k == "delete":
+        return ["Delete %s" % toks[1]]
+    if k == "saveindex":
+        return ["SaveIndex"]
+    if k == "dgc":
+        return ["Delete %s" % t for t in toks[1:]]
+    if k == "gc":
+        swept = [int(x) for x in toks[1:]]
+        live = [b[0] for b in blobs if b[0] not in swept]
+        return ["Forget [%s]" % "; ".join(str(x) for x in live)] + ["Delete %d" % x for x in swept]
+    if k == "reopen":
+        return []
+    raise ValueError(k)
+
+
+def _c10_vm_goal(case, out):
+    p = case.split(" ")
+    if p[0] != "K" or p[2].endswith("final=init") or "MODEL-NOT" in out:
+        return None
+    j = int(p[1])
+    f = dict(x.split("=", 1) for x in p[2].split(";"))
+    blobs = [tuple(int(y) for y in x.split(":")) for x in f["blobs"].split(",") if x]
+    hist = []
+    for it in [x for x in f["hist"].split(",") if x]:
+        t = it.split(":")
+        if t[0] == "crash":
+            hist.append("([%s], Some %s%%nat)" % ("; ".join(_c10_vm_call(t[2:], blobs)), t[1]))
+        else:
+            hist.append("([%s], None)" % "; ".join(_c10_vm_call(t, blobs)))
+    fin = _c10_vm_call(f["final"].split(":"), blobs)
+    toks = out.split(" ")[1:]
+    layout = "true" if "F:L=ok" in toks else "false"
+    view = {}
+    idx = None
+    for t in toks:
+        if t.startswith("F:B"):
+            name, val = t[3:].split("=", 1)
+            v = val.split(":")
+            if v[0] == "?":
+                return None
+            view[int(name)] = "Some (%s%%nat, %s)" % (v[1], "true" if v[3] == "ro" else "false")
+        elif t.startswith("F:I="):
+            val = t[4:]
+            if val.startswith("["):
+                es = [e for e in val[1:-1].split(",") if e]
+                idx = "Some (%d%%nat, true)" % len(es)
+                exp = "; ".join("(%s, %s)" % (e.split("@")[0], "None" if e.split("@")[1] == "-" else "Some %s" % e.split("@")[1]) for e in es)
+    if idx is None:
+        idx, exp = "None", ""
+    ids = [b[0] for b in blobs]
+    tbl = "; ".join("(%d, %d%%nat)" % (b[0], b[1]) for b in blobs)
+    return ("vm_view (vm_H [%s]) [%s] [%s] %d%%nat [%s] [%s]\n  = (%s, [%s], %s)"
+            % (tbl, "; ".join(hist), "; ".join(fin), j, "; ".join(str(i) for i in ids), exp, layout,
+               "; ".join(view.get(i, "None") for i in ids), idx))
+
+
+def _c10_vm_sample(d, tier, coq, build, want=150):
+    import os, subprocess
+    if tier != "thorough":
+        return []
+    outs = {}
+    with open(os.path.join(d, "model.txt")) as f:
+        for l in f:
+            i, _, o = l.rstrip("\n").partition(" ")
+            outs[i] = o
+    cand = []
+    with open(os.path.join(d, "cases.txt")) as f:
+        for l in f:
+            i, _, c = l.rstrip("\n").partition(" ")
+            if c.startswith("K ") and i in outs:
+                cand.append((i, c))
+    goals = []
+    stride = max(1, len(cand) // want)
+    for i, c in cand[::stride]:
+        g = _c10_vm_goal(c, outs[i])
+        if g:
+            goals.append((i, g))
+    vdir = os.path.join(build, "vm")
+    os.makedirs(vdir, exist_ok=True)
+    vf = os.path.join(vdir, "C10_cases.v")
+    with open(vf, "w") as f:
+        f.write(_VM_PRELUDE)
+        for i, g in goals:
+            f.write("\n(* %s *)\nGoal %s.\nProof. vm_compute. reflexivity. Qed.\n" % (i, g))
+    p = subprocess.run(["coqc", "-R", coq, "Oras", "-w", "-notation-overridden", vf], cwd=vdir, timeout=1500,
+                       stdout=subprocess.PIPE, stderr=subprocess.STDOUT, text=True)
+    with open(os.path.join(d, "vm_sample.txt"), "w") as f:
+        f.write("%d goals rc=%d\n%s" % (len(goals), p.returncode, p.stdout[-3000:]))
+    if p.returncode != 0:
+        return ["vm_compute re-evaluation of %d sampled kill cases inside Coq disagrees with the extracted runner (or does not type-check): %s"
+                % (len(goals), p.stdout[-1200:])]
+    if len(goals) < want // 3:
+        return ["vm_compute sample too small: %d goals" % len(goals)]
+    return []
+
+
 CONFIG = {
     "properties_file": "Properties/C10.v",
     "proof_files": ["Base/Prelude.v", "Proofs/OciCrash.v"],
@@ -20,6 +167,7 @@ CONFIG = {
     "ml_main": "c10_main.ml",
     "harness": "c10",
     "case_to_replay": _c10_case,
+    "post_model": _c10_vm_sample,
     "timeout_quick": 600,
     "timeout_thorough": 3000,
     "assumptions": [
